@@ -1240,7 +1240,7 @@ fn c10(cx: &mut Ctx<'_, '_>) {
                 _ => continue,
             };
             // locate the callback that threw
-            let found = out.cbs.iter().enumerate().find(|(ci, cb)| {
+            let candidates: Vec<(usize, &crate::world::Cb)> = out.cbs.iter().enumerate().filter(|(ci, cb)| {
                 let same_site = match (world, kind) {
                     (Some(w), k) => cb.kind == k && cb.world == Some(w) && text.is_none_or(|t| cb.text == t),
                     (None, CbKind::After) => cb.kind == CbKind::After && cb.world.is_none() && cb.sc_uid == Some(a.sc_uid),
@@ -1252,11 +1252,11 @@ fn c10(cx: &mut Ctx<'_, '_>) {
                         o @ CbOutcome::Panic(..) => Analysis::payload_matches(payload, o),
                         _ => false,
                     }
-                    && (cb.kind != CbKind::After || world.is_some() || {
-                        // several after(None) callbacks of one scenario: match by order of attempts
-                        true
-                    })
-            });
+            }).collect();
+            // several callbacks can be indistinguishable by site and payload (after hooks
+            // without a World throwing the same token-less &'static str in different
+            // attempts): each Failed event is matched to one that is still unreported
+            let found = candidates.iter().find(|(ci, _)| !reported.contains_key(ci)).or(candidates.first()).copied();
             match found {
                 Some((ci, _)) => *reported.entry(ci).or_insert(0) += 1,
                 None => cx.viol("C10", "panic:phantom-failure", format!("Failed event without a matching thrown panic/error: {}", r.short()), json!({"attempt": an.attempt_words(a)})),
